@@ -13,7 +13,7 @@ import numpy as np
 from hypothesis import strategies as st
 
 from vf import registry as R
-from vf.core import SubCheck, Violation
+from vf.core import SubCheck, Violation, value
 from vf.props.c10 import scenes
 
 ASSUMPTIONS = [
@@ -341,6 +341,9 @@ def check_nddata_forms(case, ctx):
     m = np.zeros(d.shape, bool)
     if case['mask']:
         m[3:5, :] = True
+        # finite-valued bad pixels inside the first star's fit box / aperture
+        sx, sy = case['scene']['stars'][0][:2]
+        m[int(round(sy)) + 1, int(round(sx)) - 1:int(round(sx)) + 1] = True
     unit = u.Jy if case['unit'] else None
     ukind = case['uncertainty']
     if ukind == 'std':
@@ -381,6 +384,45 @@ def check_nddata_forms(case, ctx):
         calls['ApertureStats'] = (
             lambda: ApertureStats(nd, X.aper),
             lambda: ApertureStats(d * U, X.aper, error=e * U, mask=mk))
+    else:
+        # other uncertainty types are documented to be ignored by the
+        # aperture functions: no error column (never a mis-read one)
+        with warnings.catch_warnings():
+            warnings.simplefilter('ignore')
+            tb = aperture_photometry(nd, X.aper)
+            ref = aperture_photometry(d * U, X.aper, error=e * U, mask=mk)
+        if 'aperture_sum_err' in tb.colnames and not np.allclose(
+                np.asarray(value(tb['aperture_sum_err']), float),
+                np.asarray(value(ref['aperture_sum_err']), float),
+                rtol=1e-7, equal_nan=True):
+            raise Violation('output_value',
+                            f'aperture_photometry(NDData with {ukind} '
+                            'uncertainty) reports an aperture_sum_err that is '
+                            'not the propagated standard deviation',
+                            entry='aperture_photometry', rep='nddata_' + ukind)
+    if ukind == 'std' and unit is not None:
+        # an uncertainty carrying its own (equivalent) unit: rejected or
+        # physically equal
+        nd2 = NDData(d, uncertainty=StdDevUncertainty(e * 1000.0, unit=u.mJy),
+                     mask=m if case['mask'] else None, unit=unit)
+        for name, fn in (('aperture_photometry', lambda n_: aperture_photometry(n_, X.aper)),
+                         ('ApertureStats', lambda n_: ApertureStats(n_, X.aper).to_table())):
+            with warnings.catch_warnings():
+                warnings.simplefilter('ignore')
+                try:
+                    tb = fn(nd2)
+                except (ValueError, u.UnitsError, u.UnitConversionError):
+                    ctx.event('uncertainty_unit_rejected')
+                    continue
+                ref = fn(nd)
+            for c in ('aperture_sum_err', 'sum_err'):
+                if c in ref.colnames and not np.allclose(
+                        u.Quantity(tb[c]).to_value(u.Jy),
+                        u.Quantity(ref[c]).to_value(u.Jy), rtol=1e-7,
+                        equal_nan=True):
+                    raise Violation('equivalent_units_differs',
+                                    f'{name}: {c} differs when the NDData '
+                                    'uncertainty is given in mJy', entry=name)
     for name, (fn_nd, fn_arr) in calls.items():
         with warnings.catch_warnings():
             warnings.simplefilter('ignore')
@@ -430,7 +472,7 @@ SUBCHECKS = [
              quick=(16, 25), thorough=(16, 300), budget_quick=100),
     SubCheck('nddata_forms', nddata_cases(), check_nddata_forms,
              'non-trivial = variance / inverse-variance uncertainty or a unit',
-             quick=(4, 8), thorough=(8, 150)),
+             quick=(8, 8), thorough=(8, 150)),
     SubCheck('equivalent_units', equiv_cases(), check_equivalent_units,
              'every case: companion inputs in mJy with data in Jy are either '
              'rejected or give physically equal results',
